@@ -52,6 +52,8 @@ FailedSome(r) ==
   IN (IF \A j \in DOMAIN O : O[j].cs = InCodespace(c, AsOp(O[j].e)) THEN {} ELSE {"in_codespace_iff_commutes_with_generators"})
 \cup (IF \A j \in DOMAIN O : AsSet(O[j].le) = EffPositions(c, AsOp(O[j].e)) THEN {} ELSE {"logical_effect_bits"})
 \cup (IF \A j \in DOMAIN O : O[j].ile = (Effect(c, AsOp(O[j].e)) # NoEffect) THEN {} ELSE {"is_logical_error"})
+\cup (IF \A j \in DOMAIN O : \A b \in DOMAIN O[j].le_stacked : AsSet(O[j].le_stacked[b]) = EffPositions(c, AsOp(O[j].e))
+      THEN {} ELSE {"logical_effect_bits_stacked_call"})
 \cup (IF \A j \in DOMAIN O : O[j].suc = IsStab(AsOp(O[j].e)) THEN {} ELSE {"success_iff_stabilizer"})
 \cup (IF \A j \in DOMAIN O : O[j].rsuc = IsStab(AsOp(O[j].e)) THEN {} ELSE {"run_once_success_iff_stabilizer"})
 \* the harness builds some operators as (product of generators) * e0 : the
